@@ -26,7 +26,6 @@
    cancelled and every goroutine exited; (c) once cancelled, theorems A + B apply. *)
 From Coq Require Import List Arith Bool.
 Import ListNotations.
-From Coq Require Import String.
 From Trzsz Require Import Model.Proc Model.ProcFault Proofs.Proc Proofs.ProcFault Proofs.ProcInst Gen.Skel_pipeline.
 From Trzsz Require Import Model.ErrTell Proofs.ErrTell Gen.Skel_errtell Gen.Skel_errcallers.
 
@@ -104,7 +103,7 @@ Definition fault_follows (N : net) : Prop :=
     (cc true (qx N p f) false h = true ->
        (cancelled g2 = true \/ enabled N D io_ret p g2) /\
        (exists tr' g3, lsteps N D io_ret tr' g2 g3 /\ cancelled g3 = true /\ Forall (eq p) tr' /\
-                       length tr' <= cmL h + 2) /\
+                       List.length tr' <= cmL h + 2) /\
        (stuck N D io_ret g2 -> cancelled g2 = true /\ forall q, procs g2 q = Exited)) /\
     (cancelled g2 = true ->
        (forall n g3, steps N D io_ret n g2 g3 -> n <= total N D g2) /\
